@@ -328,6 +328,10 @@ var refFuncs = func() map[string]bool {
 // IsNewFunc: the module function does not exist (under that name) on the reference tree the rules
 // were confirmed on - typically a helper extracted later.
 func (p *Program) IsNewFunc(f *ssa.Function) bool {
+	// an instance of a generic function is new when the generic function is
+	if f != nil && f.Origin() != nil {
+		f = f.Origin()
+	}
 	if len(refFuncs) == 0 || f == nil || f.Pkg == nil || !p.InModule(f.Pkg.Pkg.Path()) {
 		return false
 	}
